@@ -29,7 +29,10 @@ def one(k):
         r = subprocess.run(["python3", "/verif/tools/mutcheck.py", "--patch", f"{dst}/patch.diff", "--", c], capture_output=True, text=True, cwd="/verif")
         res[c] = (r.stdout.strip() or r.stderr.strip())[:400]
     meta = dict(notes.get(k, {}))
-    meta.update({"group": bk, "k": k, "claimed_harmless_for": checks, "checks_result": res,
+    if os.path.exists(f"{dst}/meta.json"):      # a re-run of some checks keeps the results of the others
+        old = json.load(open(f"{dst}/meta.json"))
+        res = {**old.get("checks_result", {}), **res}
+    meta.update({"group": bk, "k": k, "claimed_harmless_for": sorted(res), "checks_result": res,
                  "alarms": [c for c, v in res.items() if f"{c}: rc=0" not in v]})
     json.dump(meta, open(f"{dst}/meta.json", "w"), indent=1)
     return k, meta
